@@ -140,7 +140,11 @@ type Machine struct {
 	cacheHits int
 
 	cfn         string // C function being interpreted (C15)
-	cheap       int    // C heap pseudo-address counter
+	cheap       int    // (unused) C heap pseudo-address counter
+	cobjs       []*LObj // C objects by pseudo address (llir.go)
+	cglobals    map[string]*LObj
+	cdepth      int
+	cuninit     int
 	hangLimit   int
 	maxSteps    int
 	quietFS     bool
